@@ -21,6 +21,10 @@ COMPILERS = {"rel": "g++", "asan": "clang++", "tsan": "clang++"}
 # property table. engine "rc": a rapidcheck executable built in the `rel` flavour.
 # quick/thorough: (multiplier on each sub-check's base case count, number of parallel seeds)
 PROPS = {
+    "C20": dict(engine="rc", exe="c20", quick=(1, 6), thorough=(20, 16),
+                assumptions=["'attained at the model's own top/bottom' is asserted for models whose min depth is 0 and whose max depth is constant (the documentation calls the top temperature the surface temperature)",
+                             "the 100-term plate series may overshoot next to the surface at young ages (Gibbs): 9% of the jump is allowed at depths shallower than 2% of the plate thickness",
+                             "slab probes come from the planar construction validated by C06; ambient = background adiabat (single-feature worlds)"]),
     "C05": dict(engine="rc", exe="c05", quick=(1, 6), thorough=(20, 16),
                 assumptions=["oracles are written from the parameter documentation; where it is not specific (smooth composition, Euler-angle convention, slab/fault sentinel depths) only the weaker documented part is asserted",
                              "ridge models are checked in cartesian worlds with a ridge along x = const (distance to the ridge is then |x - x_ridge| by definition)",
